@@ -28,12 +28,12 @@ type Config struct {
 }
 
 type Program struct {
-	Dir   string
-	Fset  *token.FileSet
-	Pkgs  []*packages.Package
-	Prog  *ssa.Program
-	Sizes types.Sizes
-	byPath map[string]*packages.Package
+	Dir     string
+	Fset    *token.FileSet
+	Pkgs    []*packages.Package
+	Prog    *ssa.Program
+	Sizes   types.Sizes
+	byPath  map[string]*packages.Package
 	GoFiles int
 }
 
